@@ -50,7 +50,9 @@ namespace cnl {
             // Note: linker may struggle with combination of clang, int128_t and sanitizer.
             // (See posix.cmake for details.)
             auto const remainder = value - (quotient * base);
-            *next_ptr = itoc(static_cast<int>(remainder));
+            // value may be negative (see to_chars_non_zero): its remainder is then in (-base, 0]
+            auto const digit = static_cast<int>(remainder);
+            *next_ptr = itoc(digit < 0 ? -digit : digit);
 
             return next_ptr + 1;
         }
@@ -78,10 +80,9 @@ namespace cnl {
                     // -ve
                     *first = '-';
 
-                    // implementation does not support the most negative number
-                    CNL_ASSERT(-std::numeric_limits<decltype(-value)>::max() <= value);
-
-                    return to_chars_positive(first + 1, last, -value, base);
+                    // the digits are taken from the negative value itself:
+                    // negating the most negative number would overflow
+                    return to_chars_positive(first + 1, last, value, base);
                 }
             }
 
